@@ -276,6 +276,18 @@ func runCheck(id, tier, repo string, seed int, writeBaseline bool) int {
 		fmt.Fprintf(os.Stderr, "engine error: no obligations generated for %s (vacuous check)\n", id)
 		return 3
 	}
+	// obligations that were never discharged on the unchanged tree are not part of the claim: try them briefly only
+	if !writeBaseline && len(baseline.Discharged[id]) > 0 {
+		inBase := map[string]bool{}
+		for _, n := range baseline.Discharged[id] {
+			inBase[n] = true
+		}
+		for _, ob := range all {
+			if !inBase[baseName(ob.Name)] && ob.Kind != "cover" {
+				ob.Short = true
+			}
+		}
+	}
 	// obligations pinned by a known finding are expected to stay open: do not spend the long timeouts on them
 	for _, ob := range all {
 		for i := range known.Findings {
